@@ -333,6 +333,20 @@ def check_values(t: Tally, tier="quick"):
                     t.violation({"kind": "raw-value", "class": kind, "falsy_raw": not bool(want_raw) if not isinstance(want_raw, float) else want_raw == 0},
                                 case, expected=repr(want_raw), observed=repr(got_raw))
                 exercise(t, p, v, kind, case, ops, others, got_raw)
+                # a value object is a drop-in for the plain value also as the argument of a value class: built from p with no raw value given,
+                # the new object's raw value is its value (not whatever raw value p carried)
+                if raw != "<omitted>":
+                    t.evals += 1
+                    r2 = attempt(lambda: cls(p))
+                    ok2 = False
+                    if r2[0] == "ok":
+                        rr = getattr(r2[1], "raw_value", "<missing>")
+                        conv = attempt(lambda: base_type(v)(rr) if kind != "bool" else bool(rr))
+                        ok2 = conv[0] == "ok" and kind_family(rr) == kind_family(v) and same(conv[1], v)
+                    if not ok2:
+                        t.violation({"kind": "raw-value", "class": kind, "built_from": "a value object"}, case, expected=repr(v),
+                                    observed=repr(getattr(r2[1], "raw_value", None)) if r2[0] == "ok" else r2[1],
+                                    note="cls(value_object) without a raw value: raw_value is not the value itself")
 
 
 def check_interference(t: Tally):
